@@ -54,6 +54,8 @@ namespace mfuse
         virtual void GetValueAt(uintptr_t offset, void* value, size_t size) = 0;
         virtual void WriteOpcodeValue(const void* value, size_t size) = 0;
         virtual void AddSourcePos(const opval_t* code_pos, sourceLocation_t sourceLoc) = 0;
+        /** True for a manager that only measures: label counts are of no use to it. */
+        virtual bool IsCounting() const { return false; }
 
         template<typename T>
         void WriteOpcodeValue(T value)
